@@ -3,11 +3,16 @@
 package c14
 
 import (
+	"bytes"
 	"encoding/hex"
 	"encoding/json"
 	"fmt"
 	"io"
+	"os"
+	"os/exec"
 	"runtime"
+	"sort"
+	"strings"
 	"sync"
 	"sync/atomic"
 	"testing"
@@ -273,6 +278,89 @@ func checkTransition(c transCase) (string, bool) {
 	return "", true
 }
 
+// TestMain: with VERIF_C14_WORKER set this binary is the child of the
+// "build-variants" sub-check: the same package built for another architecture
+// or with the build tags by which Go packages select portable instead of
+// assembly or unsafe code paths (purego, noasm, appengine). The checksum is a
+// function of the bytes under every one of them. The child checks every
+// transition and a fixed family of write cases and big writes.
+func TestMain(m *testing.M) {
+	if os.Getenv("VERIF_C14_WORKER") == "" {
+		os.Exit(m.Run())
+	}
+	h := dyncrc16.New()
+	for s := 0; s < 65536; s++ {
+		p := prefixes[s]
+		for b := 0; b < 256; b++ {
+			h.Reset()
+			h.Write(p[:])
+			h.Write([]byte{byte(b)})
+			if h.Sum16() != fitmodel.CRCStep(uint16(s), byte(b)) {
+				msg, _ := checkTransition(transCase{uint16(s), byte(b)})
+				fmt.Println("MISMATCH " + msg)
+				os.Exit(3)
+			}
+		}
+	}
+	x := uint64(88172645463325252)
+	next := func() uint64 { x ^= x << 13; x ^= x >> 7; x ^= x << 17; return x }
+	for i := 0; i < 3000; i++ {
+		n := int(next() % 300)
+		data := make([]byte, n)
+		for j := range data {
+			data[j] = byte(next() >> 24)
+		}
+		c := writeCase{Data: hex.EncodeToString(data)}
+		for k := int(next() % 4); k > 0 && n > 0; k-- {
+			c.Cuts = append(c.Cuts, int(next()%uint64(n)))
+		}
+		sort.Ints(c.Cuts)
+		if msg, ok := checkWriteCase(c); !ok {
+			fmt.Println("MISMATCH " + msg)
+			os.Exit(3)
+		}
+	}
+	for _, n := range []int{7, 8, 9, 15, 16, 17, 63, 64, 65, 4095, 4096, 65535, 65536, 65537, 200000} {
+		if msg, ok := checkBigCase(bigCase{Seed: uint64(n), Len: n, Cuts: []int{n / 3}}); !ok {
+			fmt.Println("MISMATCH " + msg)
+			os.Exit(3)
+		}
+	}
+	fmt.Println("C14-OK")
+	os.Exit(0)
+}
+
+// buildVariants runs the children described at TestMain.
+func buildVariants(rec *hx.Recorder) {
+	for _, v := range []struct{ env, name string }{
+		{"VERIF_C14_PUREGO", "built with -tags purego"}, {"VERIF_C14_NOASM", "built with -tags noasm,appengine"}, {"VERIF_C14_ARCH386", "built for GOARCH=386"},
+	} {
+		bin := os.Getenv(v.env)
+		if bin == "" {
+			rec.Note("build-variants: no binary " + v.name + " available, not run")
+			continue
+		}
+		cmd := exec.Command(bin)
+		cmd.Env = append(os.Environ(), "VERIF_C14_WORKER=1", "VERIF_OUT=")
+		var out, errb bytes.Buffer
+		cmd.Stdout, cmd.Stderr = &out, &errb
+		err := cmd.Run()
+		switch {
+		case err == nil && strings.Contains(out.String(), "C14-OK"):
+			rec.Eval("build-variants", 65536*256+3015)
+		case strings.Contains(out.String(), "MISMATCH "):
+			rec.Eval("build-variants", 1)
+			msg := out.String()[strings.Index(out.String(), "MISMATCH ")+9:]
+			if i := strings.IndexByte(msg, '\n'); i >= 0 {
+				msg = msg[:i]
+			}
+			rec.Fail("build-variants", "", "the package "+v.name+": "+msg, writeCase{Data: "", Reset: -1})
+		default:
+			rec.Note(fmt.Sprintf("build-variants: the child %s ended with %v and no verdict", v.name, err))
+		}
+	}
+}
+
 func TestC14(t *testing.T) {
 	hx.Main(t, "C14", func(rec *hx.Recorder) {
 		if rp, ok := hx.LoadReplay(); ok {
@@ -299,6 +387,8 @@ func TestC14(t *testing.T) {
 			rec.Eval("replay", 1)
 			return
 		}
+
+		buildVariants(rec)
 
 		// Exhaustive: all 65536 x 256 transitions through the public API.
 		var bad atomic.Int64
